@@ -28,7 +28,7 @@ def std_configs(rng, tier, chans=(None, 0, 1, 2, 7), slf=True, families=False, n
     return cs
 
 
-def run_runtime(rep, pid, premise, theorem_apps, configs, search=None, search_what="", extra_funs=(), per_model_check=None, imports=""):
+def run_runtime(rep, pid, premise, theorem_apps, configs, search=None, search_what="", extra_funs=(), per_model_check=None, imports="", dfs=None):
     """returns (owners, results) for further property-specific checks"""
     nthm, problems, _ = property_theorems(pid)
     rep.checker_cmds.append("make -C coq theories/Properties/%s.vo (Print Assumptions must be closed)" % pid)
@@ -66,7 +66,19 @@ def run_runtime(rep, pid, premise, theorem_apps, configs, search=None, search_wh
     res, mod = inst.coq_eval(pid, terms, funs, extra_imports="From IT Require Import Runtime.Explore Runtime.Combined.\n" + imports)
     rep.checker_cmds.append("coqc generated/%s_inst.v; coqc generated/%s_oblig.v" % (pid, pid))
     good = []
+    # bounded depth-first search over schedules for the instances whose premise fails (model-side failing-input search)
+    dfs_res = {}
+    failing = [k for k, r in enumerate(res) if r["wf"] != "true"][:24]
+    if dfs and failing:
+        bad, boom = dfs
+        try:
+            dfs_res = inst.coq_values("%s_dfs" % pid, inst.HEADER + "From IT Require Import Runtime.Explore.\nFrom ITG Require Import %s." % mod,
+                                      [("d%d" % k, "map (fun k => (k, search (elab inst_%d) %s k %s 9)) (firstn 3 (messaging (elab inst_%d)))" % (k, bad, boom, k)) for k in failing], timeout=300)
+        except Infra:
+            dfs_res = {}
     for k, ((c, j), r) in enumerate(zip(owners, res)):
+        if "d%d" % k in dfs_res:
+            r["dfs"] = dfs_res["d%d" % k]
         ok = rep.oblige(r["wf"] == "true")
         rep.nontrivial.add((c["cfg"], j))
         if k % 23 == 0:
@@ -81,11 +93,12 @@ def run_runtime(rep, pid, premise, theorem_apps, configs, search=None, search_wh
         if ok:
             good.append(k)
             continue
-        found = bool(search) and r.get("search", "[]") != "[]"
+        found = (bool(search) and r.get("search", "[]") != "[]") or ("Some" in r.get("dfs", ""))
         rep.violation("inst_%s_%d" % (c["label"], j), {
             "what": "instance premise no longer checks: %s = %s" % (premise, r["wf"]),
             "attr": c["attr"], "item": c["item"], "kind": c["kind"], "model_index": j,
-            "model_side_search": {"scenario": search_what, "anomalies": r.get("search")},
+            "model_side_search": {"scenario": search_what, "anomalies": r.get("search"),
+                                  "dfs (method, schedule: 0 = actor step, t+1 = step of client t; 3 clients call the method once each)": r.get("dfs")},
             "theorem": "premise %s inst = true of the theorems in Properties/%s.v" % (premise, pid)}, found=found)
     ok, out = inst.prove_instances(pid, mod, good, premise, theorem_apps, extra_imports="From IT Require Import Properties.%s.\n" % pid + imports)
     for _ in good:
